@@ -190,7 +190,18 @@ def r5_word_size(run, F):
     al = F.body("alpha::typer::Typer::align_struct")
     ok = False
     for n in walk(al["hir"]):
-        if n.get("k") == "If" and "else" in n and hirq.summarize_bool(n["cond"]) == "(aligned_size_in_bytes <= declared_size_in_bytes)":
+        # `<aligned size of the members> <= <declared size>` (either operand order): the aligned size derives from align(..),
+        # the declared one from the word's size_in_bytes
+        c_ = hirq.unwrap_trivial(n["cond"]) if n.get("k") == "If" and "else" in n else {}
+        fits = False
+        if c_.get("k") == "Binary" and c_.get("op") in ("Le", "Ge"):
+            from rules import origins as _or
+            small, big = (c_["lhs"], c_["rhs"]) if c_["op"] == "Le" else (c_["rhs"], c_["lhs"])
+            os_, ob_ = _or.origins(al["hir"], small, al.get("params", ())), _or.origins(al["hir"], big, al.get("params", ()))
+            fits = any(k[0] == "call" and str(k[1]).endswith("::align") for k in os_) and \
+                any((k[0] == "field" and k[1] == "size_in_bytes") or (k[0] == "patfield" and k[2] == "size_in_bytes") for k in ob_) and \
+                not any(k[0] == "call" and str(k[1]).endswith("::align") for k in ob_)
+        if fits:
             ec = [hirq.short(p) for p, _ in hirq.constructs(n["else"])]
             tc = [hirq.short(p) for p, _ in hirq.constructs(n["then"])]
             ok = "Error::WordSizeMismatch" in ec and "Error::WordSizeMismatch" not in tc
